@@ -88,6 +88,9 @@ impl Point {
     }
 
     pub(crate) fn from_byte(b: &[u8]) -> Sm2Result<Point> {
+        if b.is_empty() {
+            return Err(Sm2Error::InvalidPublic);
+        }
         let flag = b[0];
         // Compressed Point
         if flag == 0x02 || flag == 0x03 {
@@ -119,7 +122,7 @@ impl Point {
             })
         }
         // uncompressed Point
-        else {
+        else if flag == 0x04 {
             if b.len() != 65 {
                 return Err(Sm2Error::InvalidPublic);
             }
@@ -130,6 +133,8 @@ impl Point {
                 y,
                 z: crate::fields::fp64::SM2_MODP_MONT_ONE,
             })
+        } else {
+            Err(Sm2Error::InvalidPublic)
         }
     }
 
